@@ -34,6 +34,9 @@ type flowResult struct {
 	ok   bool
 	err  string
 	path string
+	// sites: how many start points have a violating path (a listed finding names this number, so that a
+	// further violating site in the same function is still reported)
+	sites int
 }
 
 // valueName: the source-level name behind an SSA value, if any.
@@ -161,16 +164,28 @@ func matchSpec(fn *ssa.Function, in ssa.Instruction, spec string, selSend map[*s
 			return false
 		}
 		return rootName(fn, c.Call.Args[0], 0) == arg && inMapRangeLoop(fn, in.Block())
+	case "map-range-call":
+		// a call of the named function or method inside a loop that ranges over a Go map
+		if c, ok := in.(*ssa.Call); ok {
+			n := ""
+			if f := c.Common().StaticCallee(); f != nil {
+				n = originOf(f).Name()
+			} else if c.Common().IsInvoke() {
+				n = c.Common().Method.Name()
+			}
+			return n == arg && inMapRangeLoop(fn, in.Block())
+		}
+		return false
 	case "sortvar":
 		c, ok := in.(ssa.CallInstruction)
 		if !ok {
 			return false
 		}
 		f := c.Common().StaticCallee()
-		if f == nil || f.Pkg == nil {
+		if f == nil || originOf(f).Pkg == nil {
 			return false
 		}
-		pk := f.Pkg.Pkg.Path()
+		pk := originOf(f).Pkg.Pkg.Path()
 		if !(pk == "sort" || ((pk == "slices" || strings.HasSuffix(pk, "/slices")) && strings.HasPrefix(originOf(f).Name(), "Sort"))) {
 			return false
 		}
@@ -187,10 +202,10 @@ func matchSpec(fn *ssa.Function, in ssa.Instruction, spec string, selSend map[*s
 			return false
 		}
 		f := c.Common().StaticCallee()
-		if f == nil || f.Pkg == nil {
+		if f == nil || originOf(f).Pkg == nil {
 			return false
 		}
-		pk := f.Pkg.Pkg.Path()
+		pk := originOf(f).Pkg.Pkg.Path()
 		if !(pk == "sort" || ((pk == "slices" || strings.HasSuffix(pk, "/slices")) && strings.HasPrefix(originOf(f).Name(), "Sort"))) {
 			return false
 		}
@@ -406,7 +421,7 @@ func runFlowCheckFn(P *Program, fc FlowCheck, fn *ssa.Function) flowResult {
 		}
 	}
 	if len(starts) == 0 {
-		if fc.Mode == "absent-ok" {
+		if fc.Mode == "absent-ok" || fc.Mode == "never-absent-ok" {
 			res.ok = true
 			return res
 		}
@@ -422,7 +437,7 @@ func runFlowCheckFn(P *Program, fc FlowCheck, fn *ssa.Function) flowResult {
 			}
 		}
 	}
-	if fc.Mode == "never" {
+	if fc.Mode == "never" || fc.Mode == "never-absent-ok" {
 		// "from" must never be followed by "until": there is nothing to pass through, but the "until"
 		// point must exist in the function (otherwise the obligation is about something else)
 		anyUntil := false
@@ -470,9 +485,13 @@ func runFlowCheckFn(P *Program, fc FlowCheck, fn *ssa.Function) flowResult {
 					blk := fn.Blocks[bi]
 					lines = append(lines, fmt.Sprintf("b%d@%s", bi, P.Pos(firstPos(blk))))
 				}
-				res.path = fmt.Sprintf("from %s at %s to %s at %s without passing through {%s}: %s", strings.Join(fc.From, ","), P.Pos(st.b.Instrs[st.i].Pos()),
-					strings.Join(fc.Until, ","), P.Pos(in.Pos()), strings.Join(fc.Through, ","), strings.Join(lines, " -> "))
-				return res
+				if res.path == "" {
+					res.path = fmt.Sprintf("from %s at %s to %s at %s without passing through {%s}: %s", strings.Join(fc.From, ","), P.Pos(st.b.Instrs[st.i].Pos()),
+						strings.Join(fc.Until, ","), P.Pos(in.Pos()), strings.Join(fc.Through, ","), strings.Join(lines, " -> "))
+				}
+				res.sites++
+				work = nil
+				continue
 			}
 			switch in.(type) {
 			case *ssa.If, *ssa.Jump:
@@ -485,7 +504,7 @@ func runFlowCheckFn(P *Program, fc FlowCheck, fn *ssa.Function) flowResult {
 			}
 		}
 	}
-	res.ok = true
+	res.ok = res.sites == 0
 	return res
 }
 
